@@ -33,6 +33,16 @@ pub fn voronoi(v: &Voronoi) -> String {
     s.push_str(&format!(" CONN {}", crate::proto::list(v.cell_face_connections())));
     // what the tessellation reports about its own box
     s.push_str(&format!(" META {} {} {} {}", v3(v.anchor()), v3(v.width()), v.dimensionality(), v.periodic() as u8));
+    // accessors that derive from the above: per cell `face_indices` and the length of the `faces` iterator; per face
+    // `is_periodic` / `is_boundary`
+    s.push_str(&format!(" ACC {}", v.cells().len()));
+    for c in v.cells() {
+        s.push_str(&format!(" {} {}", crate::proto::list(c.face_indices(v)), c.faces(v).count()));
+    }
+    s.push_str(&format!(" {}", v.faces().len()));
+    for f in v.faces() {
+        s.push_str(&format!(" {}{}", f.is_periodic() as u8, f.is_boundary() as u8));
+    }
     s
 }
 
